@@ -17,6 +17,7 @@ struct sim_ctxstat g_sim_ctx;
 void sim_ctx_reset (void) { memset (&g_sim_ctx, 0, sizeof g_sim_ctx); }
 int sim_ctx_live_for_tag (int tag) { (void)tag; return 0; }
 void sim_ctx_retag (int from, int to) { (void)from; (void)to; }
+void sim_ctx_forget (int tag) { (void)tag; }
 #endif
 
 #ifdef HAVE_LIBIDN2
@@ -37,6 +38,14 @@ size_t shim_eav_size (void) { return sizeof (eav_t); }
 int shim_has_extra (void)
 {
 #ifdef EAV_EXTRA
+    return 1;
+#else
+    return 0;
+#endif
+}
+int shim_has_ndebug (void)
+{
+#ifdef NDEBUG
     return 1;
 #else
     return 0;
